@@ -42,7 +42,7 @@ PARTIAL = ('proved for the model (Properties/C15.v), all n >= 1, every numiter >
            'breakdown (needs V^H V = I ==> V V^H = I for square V over an ordered field); the existence of exp(dt A) itself and the general '
            'non-diagonalisable branch. These remain searched numerically against scipy.linalg.expm / numpy.linalg.eigvalsh in stage C, for both '
            'values of the hermitian flag.')
-ASSUMPTIONS = ['cases with a recorded loop norm in [100 n eps, 1e-6 max|A_ij|) are excluded from the correspondence (class "ambiguous")']
+ASSUMPTIONS = ['cases with a recorded loop norm in [100 n eps max(1, max|A v0|), 1e-6 max|A_ij|) are excluded from the correspondence (class "ambiguous")']
 
 SPECS = ['generic'] * 10 + ['degenerate'] * 6 + ['scalar', 'zero']
 STARTS = ['generic'] * 4 + ['real'] + ['invariant'] * 3 + ['eigvec']
@@ -244,28 +244,16 @@ def _full(it):
 
 
 def corpus():
-    # reproduces the open known finding 'eigh-krylov-absolute-breakdown-test-large-operator' deterministically (runs first)
+    # pre-repair failing inputs of finding F9 (absolute breakdown test of the Lanczos iteration; recorded as K4 before the repair) - run first
     import json, os
     return json.load(open(os.path.join(os.path.dirname(__file__), 'c15_k4_cases.json')))
-
-
-def finding_key(case, r, msgs):
-    """known finding K4: the breakdown test of lanczos_iteration is absolute (beta < 100 n eps). When the rounding noise of an
-    exactly vanishing residual exceeds it (always for operators with entries >> 1: noise about 1e-16 max|A_ij|; now and then for
-    operators of order one, e.g. n = 7, noise 1.66e-13 against 1.55e-13) the iteration continues with a normalised noise vector and
-    eigh_krylov returns an eigenvalue that is not reachable from the start vector. Identified by: only this clause fails and some
-    recorded loop norm lies in the noise window [100 n eps, 1e-6 max|A_ij|)"""
-    if (case['kind'] == 'eigh' and 'error' not in r and len(msgs) == 1 and msgs[0].startswith('Krylov space exhausted but lowest Ritz value')
-            and KC.ambiguous(r['norms'], case['n'], KC.case_scale(case))):     # some recorded loop norm in [100 n eps, 1e-6 max|A_ij|)
-        return 'eigh-krylov-absolute-breakdown-test-large-operator'
-    return None
 
 
 def coq(case, r):
     if 'error' in r or case.get('mag'):
         return None      # magnitude regimes: implementation-level property only (the tolerances of the Coq-side oracle lookup are absolute)
     n, m = case['n'], case['m']
-    if KC.ambiguous(r['norms'], n, KC.case_scale(case)):
+    if KC.ambiguous(r['norms'], n, KC.case_scale(case), KC.case_thr(case)):
         return None
     v = KC.j2c(case['v'])
     head = KC.lanczos_args(case, r, r['norms'])
@@ -296,7 +284,7 @@ def klass(case, r):
     n, m = case['n'], case['m']
     mm = 'm>n' if m > n else ('m=n' if m == n else 'm<n')
     term = 'breakdown' if r['warn'] else 'complete'
-    amb = '/ambiguous' if KC.ambiguous(r['norms'], n, KC.case_scale(case)) else ''
+    amb = '/ambiguous' if KC.ambiguous(r['norms'], n, KC.case_scale(case), KC.case_thr(case)) else ''
     if case['kind'] == 'eigh':
         br = 'eigh'
     else:
